@@ -374,7 +374,8 @@ pub fn gen_wasm(rng: &mut Rng, thorough: bool) -> Vec<String> {
         observe(&mut ops);
         // queries through App, each asked twice, bracketed by raw hashes
         if rng.chance(1, 3) {
-            let q = match rng.below(7) {
+            let q = match rng.below(8) {
+                7 => format!("q-ext {} {}", rng.pick(&["custom", "stargate", "grpc", "ibc"]), rng.pick(&["-", "01"])),
                 0 => format!("q-bal {} {}", some_addr(rng, &ctx), rng.pick(DENOMS)),
                 1 => format!("q-all {}", some_addr(rng, &ctx)),
                 2 => format!("q-sup {}", rng.pick(DENOMS)),
